@@ -19,6 +19,7 @@ How the code is mirrored
 -/
 import CBV.Model.Common
 import CBV.Gen.Tables
+import CBV.Gen.TC03
 
 namespace CBV.C03
 
